@@ -14,6 +14,7 @@ import (
 	"path/filepath"
 	"runtime"
 	"sort"
+	"strconv"
 	"strings"
 )
 
@@ -79,6 +80,49 @@ func (i *interpreter) pathError(op, name, msg string) value {
 
 func init() {
 	reg := func(name string, f natfn) { natives[zz(name)] = f }
+	reg("StringConsts", func(fr *frame, a []value) value {
+		src, ok := a[0].(string)
+		if !ok {
+			panic(unsupported("StringConsts on symbolic text"))
+		}
+	fset := token.NewFileSet()
+	f, err := parser.ParseFile(fset, "src.go", src, parser.SkipObjectResolution)
+	if err != nil {
+		return []value(nil)
+	}
+	var out []string
+	for _, d := range f.Decls {
+		gd, ok := d.(*ast.GenDecl)
+		if !ok || gd.Tok != token.CONST {
+			continue
+		}
+		for _, sp := range gd.Specs {
+			vs, ok := sp.(*ast.ValueSpec)
+			if !ok || len(vs.Names) != 1 || len(vs.Values) != 1 {
+				continue
+			}
+			typ := ""
+			if id, ok := vs.Type.(*ast.Ident); ok {
+				typ = id.Name
+			}
+			lit, ok := vs.Values[0].(*ast.BasicLit)
+			if !ok || lit.Kind != token.STRING {
+				continue
+			}
+			val, err := strconv.Unquote(lit.Value)
+			if err != nil {
+				continue
+			}
+			out = append(out, vs.Names[0].Name+"|"+typ+"|"+val)
+		}
+	}
+	sort.Strings(out)
+		res := make([]value, len(out))
+		for k, n := range out {
+			res[k] = n
+		}
+		return res
+	})
 	reg("MethodTypes", func(fr *frame, a []value) value {
 		src, ok := a[0].(string)
 		if !ok {
